@@ -199,7 +199,7 @@ PROPS = {
     },
     "C10": {
         "level": "proof",
-        "suites": ["c10_clean_build", "real_c10"],
+        "suites": ["c10_clean_build", "real_c10", "memsys_selftest"],
         "columns": ["verdict", "cmds", "files", "cache"],
         "rule": "scenarios: generated rule graph (half with pairwise different target contents), sources, optional goal build and edit, full build, optional chmod, clean with a goal "
                 "choice, build with a goal choice; 150 quick / 2000 thorough on the in-memory System compared op by op with the model, and 10 / 120 with the REAL binary and sh "
